@@ -301,4 +301,275 @@ theorem poll_survives_delivery {K : Type} [Num K] (wt : K → K) (w : World K) (
   rw [poll_returns_to_test _ wt bell true hand d (h1.trans hpc)]
   exact wait_holds _ wt wr' bell hand _ true hw hexp (by simp [hret])
 
+/-! ### However long, whatever else arrives -/
+
+section Silence
+variable {K : Type} [Num K]
+
+/-- The wrapper is waiting for `bell` on stroke `hand` and has not been asked to give up. -/
+def Armed (w : World K) (bell : Nat) (hand : Bool) : Prop :=
+  ∃ wr, w.rh.wait = some wr ∧ bell ∈ wr.expected hand ∧ wr.shouldReturn = false
+
+/-- Events that are neither a strike of `bell`, nor Look To, nor Stop Touch, nor the second half of a Look To
+handler: other bells' strikes, every other call, assignments, arrivals and departures, settings, selections, size
+changes, states set at hand. -/
+def Quiet (bell : Nat) : Ev → Prop
+  | .resume => False
+  | .msg (.bellRung _ who) => who ≠ bell
+  | .msg (.call c) => c ≠ Generated.call_LOOK_TO
+  | .msg .stopTouch => False
+  | .msg _ => True
+
+/-- Outputs of a handler that cannot end the wait for `bell`. -/
+def harmless (bell : Nat) : Out → Bool
+  | .rReturn => false
+  | .rInit _ _ _ => false
+  | .rExpect _ _ _ _ => false
+  | .rBellRing b _ => b != bell
+  | _ => true
+
+theorem shouldReturn_onBellRing (wr : WaitR K) (b : Nat) (h : Bool) :
+    (wr.onBellRing b h).shouldReturn = wr.shouldReturn := by
+  unfold WaitR.onBellRing WaitR.setEarly WaitR.setExpected
+  cases wr.currentHand <;> cases h <;> simp
+
+theorem withReg_wait (w : World K) (f : (List (K × K × K) → K × K) → Reg K) :
+    (w.withReg f).rh.wait = w.rh.wait := by
+  unfold World.withReg
+  simp only []
+  exact ite_proj (fun x : World K => x.rh.wait) _ _ _ _ rfl rfl
+
+theorem applyOut_harmless (wt : K → K) (ct : K) (w : World K) (o : Out) (bell : Nat) (hand : Bool)
+    (ho : harmless bell o = true) (ha : Armed w bell hand) : Armed (World.applyOut wt ct w o) bell hand := by
+  obtain ⟨wr, hw, hexp, hret⟩ := ha
+  cases o with
+  | rReturn => simp [harmless] at ho
+  | rInit _ _ _ => simp [harmless] at ho
+  | rExpect _ _ _ _ => simp [harmless] at ho
+  | rBellRing b h =>
+    have hb : b ≠ bell := by simpa [harmless] using ho
+    unfold World.applyOut
+    simp only []
+    split
+    · exact ⟨wr, hw, hexp, hret⟩
+    · refine ⟨wr.onBellRing b h, ?_, ?_, ?_⟩
+      · show Option.map _ (World.withReg _ _).rh.wait = _
+        rw [withReg_wait]
+        show Option.map _ w.rh.wait = _
+        rw [hw]; rfl
+      · exact strike_disarms_only_itself wr b bell h hand hexp (fun hh => hb hh.1.symm)
+      · rw [shouldReturn_onBellRing]; exact hret
+  | rSetting key v =>
+    refine ⟨wr, ?_, hexp, hret⟩
+    rw [setting_keeps_waiting]; exact hw
+  | ring _ _ => unfold World.applyOut; simp only []; split <;> exact ⟨wr, hw, hexp, hret⟩
+  | call _ => unfold World.applyOut; simp only []; split <;> exact ⟨wr, hw, hexp, hret⟩
+  | setIsRinging _ => unfold World.applyOut; simp only []; split <;> exact ⟨wr, hw, hexp, hret⟩
+  | rollCall _ => unfold World.applyOut; simp only []; split <;> exact ⟨wr, hw, hexp, hret⟩
+  | join => unfold World.applyOut; simp only []; split <;> exact ⟨wr, hw, hexp, hret⟩
+  | requestState => unfold World.applyOut; simp only []; split <;> exact ⟨wr, hw, hexp, hret⟩
+  | crash _ => unfold World.applyOut; simp only []; split <;> exact ⟨wr, hw, hexp, hret⟩
+
+theorem foldl_applyOut_harmless (wt : K → K) (ct : K) (bell : Nat) (hand : Bool) (outs : List Out) :
+    ∀ (w : World K), (∀ o ∈ outs, harmless bell o = true) → Armed w bell hand →
+      Armed (outs.foldl (World.applyOut wt ct) w) bell hand := by
+  induction outs with
+  | nil => intro w _ ha; exact ha
+  | cons o rest ih =>
+    intro w h ha
+    simp only [List.foldl_cons]
+    exact ih _ (fun o' ho' => h o' (by simp [ho'])) (applyOut_harmless wt ct w o bell hand (h o (by simp)) ha)
+
+theorem foldSettings_harmless (bell : Nat) :
+    ∀ (kvs : List (String × SVal)) (b : Bot), ∀ o ∈ (foldSettings b kvs).2, harmless bell o = true := by
+  intro kvs
+  induction kvs with
+  | nil => intro b o ho; simp [foldSettings] at ho
+  | cons kv rest ih =>
+    intro b o ho
+    obtain ⟨k, v⟩ := kv
+    simp only [foldSettings, List.mem_append] at ho
+    rcases ho with h | h
+    · unfold Bot.onSetting at h
+      split at h
+      · simp at h
+      · split at h
+        · simp at h
+        · split at h
+          · simp at h
+          · simp at h; subst h; rfl
+    · exact ih _ o h
+
+theorem makeCalls_harmless (b : Bot) (cs : List String) (bell : Nat) : ∀ o ∈ b.makeCalls cs, harmless bell o = true := by
+  intro o ho
+  unfold Bot.makeCalls at ho
+  split at ho
+  · rw [List.mem_map] at ho
+    obtain ⟨x, _, rfl⟩ := ho
+    rfl
+  · simp at ho
+
+/-- What the handler of a quiet message hands to the rhythm cannot end the wait. -/
+theorem onMsg_quiet (b : Bot) (m : Msg) (bell : Nat) (hq : Quiet bell (.msg m)) :
+    ∀ o ∈ (b.onMsg m).2, harmless bell o = true := by
+  intro o ho
+  unfold Bot.onMsg at ho
+  simp only [] at ho
+  cases m with
+  | bellRung st who =>
+    simp only [] at ho
+    split at ho
+    · simp at ho
+    · split at ho
+      · simp at ho; subst ho
+        have : who ≠ bell := hq
+        simp [harmless, this]
+      · simp at ho
+  | globalState st =>
+    simp only [] at ho
+    unfold Bot.onSizeChange at ho
+    split at ho
+    · simp at ho; subst ho; rfl
+    · simp at ho
+  | sizeChange n =>
+    simp only [] at ho
+    split at ho
+    · unfold Bot.onSizeChange at ho
+      split at ho
+      · simp at ho; subst ho; rfl
+      · simp at ho
+    · simp at ho
+  | call c =>
+    simp only [] at ho
+    have hc : (c == Generated.call_LOOK_TO) = false := by
+      have : c ≠ Generated.call_LOOK_TO := hq
+      simpa using this
+    unfold Bot.onCall at ho
+    simp only [hc, Bool.false_eq_true, if_false] at ho
+    split at ho
+    · unfold Bot.onGo at ho
+      split at ho
+      · exact makeCalls_harmless _ _ bell o ho
+      · simp at ho
+    · repeat' split at ho
+      all_goals simp at ho
+  | setting kvs =>
+    simp only [] at ho
+    split at ho
+    · exact foldSettings_harmless bell _ _ o ho
+    · simp at ho
+  | rowGen g =>
+    simp only [] at ho
+    repeat' split at ho
+    all_goals simp at ho
+  | stopTouch => exact absurd hq (by simp [Quiet])
+  | userEntered _ _ => simp at ho
+  | userList _ => simp at ho
+  | assign _ _ => simp at ho
+  | userLeft _ => simp at ho
+
+theorem lookToSuspends_quiet (w : World K) (m : Msg) (bell : Nat) (hq : Quiet bell (.msg m)) :
+    w.lookToSuspends m = none := by
+  unfold World.lookToSuspends
+  cases m with
+  | call c =>
+    have hc : (c == Generated.call_LOOK_TO) = false := by
+      have : c ≠ Generated.call_LOOK_TO := hq
+      simpa using this
+    simp [hc]
+  | _ => rfl
+
+/-- A quiet event leaves the wait armed. -/
+theorem deliver_quiet (wt : K → K) (w : World K) (e : Ev) (bell : Nat) (hand : Bool) (hq : Quiet bell e)
+    (ha : Armed w bell hand) : Armed (World.deliver wt w e) bell hand := by
+  cases e with
+  | resume => exact absurd hq (by simp [Quiet])
+  | msg m =>
+    unfold World.deliver
+    simp only [lookToSuspends_quiet w m bell hq]
+    unfold World.deliverMsg
+    simp only []
+    have hb : Armed ({ w with bot := (w.bot.onMsg m).1 } : World K) bell hand := ha
+    have := foldl_applyOut_harmless wt w.now bell hand (w.bot.onMsg m).2 _ (onMsg_quiet w.bot m bell hq) hb
+    split
+    · exact this
+    · exact this
+
+theorem sleep_go_quiet (wt : K → K) (limit : K) (bell : Nat) (hand : Bool) :
+    ∀ (events : List (K × Ev)) (w : World K), (∀ ev ∈ events, Quiet bell ev.2) → Armed w bell hand →
+      Armed (World.sleep.go wt limit w events).1 bell hand ∧
+      (∀ ev ∈ (World.sleep.go wt limit w events).2, Quiet bell ev.2) := by
+  intro events
+  induction events with
+  | nil => intro w _ ha; exact ⟨ha, by intro ev h; cases h⟩
+  | cons ev rest ih =>
+    intro w hq ha
+    obtain ⟨t, m⟩ := ev
+    unfold World.sleep.go
+    split
+    · have ha1 : Armed (if w.now < t then ({ w with now := t } : World K) else w) bell hand := by
+        split
+        · exact ha
+        · exact ha
+      exact ih _ (fun ev' h' => hq ev' (by simp [h'])) (deliver_quiet wt _ m bell hand (hq (t, m) (by simp)) ha1)
+    · exact ⟨ha, hq⟩
+
+theorem sleep_quiet (wt : K → K) (endTime : K) (w : World K) (d : K) (events : List (K × Ev)) (bell : Nat) (hand : Bool)
+    (hq : ∀ ev ∈ events, Quiet bell ev.2) (ha : Armed w bell hand) :
+    Armed (World.sleep wt endTime w d events).1 bell hand ∧
+    (∀ ev ∈ (World.sleep wt endTime w d events).2.1, Quiet bell ev.2) := by
+  unfold World.sleep
+  simp only []
+  split
+  · exact sleep_go_quiet wt endTime bell hand events w hq ha
+  · obtain ⟨h1, h2⟩ := sleep_go_quiet wt (w.now + d) bell hand events w hq ha
+    exact ⟨h1, h2⟩
+
+/-- **Never ahead, however long and whatever else arrives.**  The main thread is polling for a human bell that is
+awaited on the stroke being rung.  If none of the events still to come is a strike of that bell, a Look To or a
+Stop Touch - they may be anything else: other ringers' strikes, calls, assignments, people coming and going,
+settings, selections, size changes - then for the whole rest of the run, of whatever length, Wheatley strikes
+nothing. -/
+theorem silent_until_the_bell_rings (wt : K → K) (endTime : K) (bell : Nat) (hand : Bool) :
+    ∀ (fuel : Nat) (w : World K) (d : K) (events : List (K × Ev)),
+      w.pc = .userPoll bell true hand d → Armed w bell hand → (∀ ev ∈ events, Quiet bell ev.2) →
+      ringsOf (World.run wt endTime fuel w events).1.obs = ringsOf w.obs := by
+  intro fuel
+  induction fuel with
+  | zero => intro w d events _ _ _; rfl
+  | succ fuel ih =>
+    intro w d events hpc ha hq
+    obtain ⟨wr, hw, hexp, hret⟩ := ha
+    have hstep : w.mainStep wt =
+        ({ w with pc := .userPoll bell true hand (d + Num.ofQ Generated.waitSleepTime) },
+         .sleep (Num.ofQ Generated.waitSleepTime)) := by
+      rw [poll_returns_to_test w wt bell true hand d hpc]
+      exact wait_holds w wt wr bell hand _ true hw hexp (by simp [hret])
+    unfold World.run
+    simp only [hstep]
+    set w1 : World K := { w with pc := .userPoll bell true hand (d + Num.ofQ Generated.waitSleepTime) } with hw1
+    have ha1 : Armed w1 bell hand := ⟨wr, hw, hexp, hret⟩
+    obtain ⟨sp, sr⟩ := sleep_never_rings wt endTime w1 (Num.ofQ Generated.waitSleepTime) events
+    obtain ⟨sa, sq⟩ := sleep_quiet wt endTime w1 (Num.ofQ Generated.waitSleepTime) events bell hand hq ha1
+    split
+    · exact sr
+    · rw [ih _ (d + Num.ofQ Generated.waitSleepTime) _ sp sa sq]
+      exact sr
+
+/-- Non-vacuity: a world whose main thread polls for bell 2 at handstroke with bell 2 awaited; a strike of
+bell 3, a Bob, an assignment and a size change are quiet events for it, a strike of bell 2 and Look To are not. -/
+example : ∃ w : World Float, w.pc = .userPoll 2 true true 0 ∧ Armed w 2 true :=
+  ⟨{ World.init (0 : Float) (Bot.init mkPlaceholder true false true none none)
+        { reg := Reg.init 0.5 178 1 4 15 0,
+          wait := some { (WaitR.init : WaitR Float) with expectedHand := [2] }, stub := none } [] none with
+      pc := .userPoll 2 true true 0 }, rfl, ⟨_, rfl, by simp [WaitR.expected], rfl⟩⟩
+
+example : Quiet 2 (.msg (.bellRung [true, true, false] 3)) ∧ Quiet 2 (.msg (.call "Bob")) ∧
+    Quiet 2 (.msg (.assign 2 7)) ∧ Quiet 2 (.msg (.sizeChange 8)) ∧
+    ¬ Quiet 2 (.msg (.bellRung [true, false] 2)) ∧ ¬ Quiet 2 (.msg (.call "Look to")) := by
+  refine ⟨by simp [Quiet], by simp [Quiet, Generated.call_LOOK_TO], trivial, trivial, by simp [Quiet], ?_⟩
+  simp [Quiet, Generated.call_LOOK_TO]
+
+end Silence
+
 end Wheatley.C09
